@@ -21,7 +21,9 @@ META = dict(
           "[skipWS_stops_at_token_start]; a // or # comment never passes a line feed and stops exactly at its line end [line_comment_stays_on_its_line, "
           "line_comment_stops_at_line_end]; a block comment ends at the FIRST */ [block_comment_ends_at_first_close]. Tied by calling the real SkipWS through the hook on a "
           "buffer with no terminator behind it (ASan sees any read past the end) from every start index: return value, cursor index, line and column must equal the model's and "
-          "an independent regex reading. NOT proved (a theorem about 2,500 lines of hand-written recursive descent is out of "
+          "an independent regex reading. EVERY OPERAND IS ACCOUNTED FOR (model-free): expressions `operand op operand …` whose operands are literal spellings, valid and "
+          "broken (0b, 0x, 1.5e+, 08, 1lu, 'ab' …) in every position, parsed WITHOUT the optimizer: either parse() raises or the tree has exactly as many Id / Constant leaves as "
+          "operands were written — text the lexer consumed without producing a node shows as a missing leaf. NOT proved (a theorem about 2,500 lines of hand-written recursive descent is out of "
           "reach here): termination, memory safety and exception discipline of the grammar functions. Those are explored on the real parser built with "
           "clang -fsanitize=address,undefined, with no engine in the way: the repository's scripts, its never-run AFL corpus, byte-level mutations and "
           "truncations of them, bracket soup, every escape-sequence shape in string/char literals and interpolations, nesting of 24 bracket-like constructs to depths "
@@ -108,6 +110,48 @@ def ws_stage(ctx, exe, n):
     return C.compare_streams(ctx, "parsefuzz", ["ws " + l for l in lines], ml, iout, bucket=lambda line: "ws")
 
 
+# ---------------------------------------------------------------- every operand token is accounted for
+OPERAND_TOKENS = ["0b", "0B", "0x", "0X", "0b1", "0B101", "0x1F", "0xg", "0b2", "0b_", "0xx", "07", "08", "00", "1", "1u", "1ul", "1llu", "1lu", "1l", "1f", "1.5", "1.5f", "1.5l",
+                  "1.", "0.", "1e5", "1.5e", "1.5e+", "1e+5", "1e-", ".5", "1_000", "'a'", "'ab'", "''", "\"s\"", "\"\"", "x", "_y", "true", "false", "0b1u", "0x1ul", "1e5f", "0x.", "0b.", "1..2"]
+OPERAND_OPS = ["+", "-", "*", "/", "%", "<", "<=", "==", "!=", "&&", "||", "&", "|", "^", "<<", ">>"]
+
+
+def operand_stage(ctx, exe, n):
+    """expressions `operand op operand …` (blanks between all tokens) whose operands are literal spellings, valid and broken: either parse() raises, or the tree has exactly as
+    many operand leaves (Id / Constant) as operands were written — an operand that the lexer consumed and then dropped (or split in two) shows as a different count"""
+    rng = ctx.rng
+    cases = []
+    for tok in OPERAND_TOKENS:           # every spelling alone and in each position, then random mixes
+        cases += [[tok], [tok, "+", "a"], ["a", "-", tok], ["a", "*", tok, "-", "b"], [tok, "-", "a"]]
+    for _ in range(n):
+        k = rng.range(1, 4)
+        c = []
+        for j in range(k):
+            c.append(rng.choice(OPERAND_TOKENS) if rng.chance(1, 2) else rng.choice(["a", "b", "c"]))
+            if j + 1 < k:
+                c.append(rng.choice(OPERAND_OPS))
+        cases.append(c)
+    with ctx.timer("impl"):
+        out, _ = C.run_harness_resilient(exe, [], ["leaves " + " ".join(c).encode().hex() for c in cases], timeout=900, stall=120)
+    found = 0
+    for c, o in zip(cases, out):
+        ctx.hist("operand_outcomes", o.split()[0] if o else "empty")
+        want = (len(c) + 1) // 2
+        bad = None
+        if o.startswith("ok"):
+            f = dict(x.split("=", 1) for x in o.split()[1:] if "=" in x)
+            if int(f.get("operands", -1)) != want or f.get("otherleaves") != "0":
+                bad = "%d operands were written, the tree has %s operand leaves (%s other leaves): text was consumed without a node, or split" % (want, f.get("operands"), f.get("otherleaves"))
+        elif not o.startswith("eval_error"):
+            bad = "unexpected: " + o[:200]
+        if bad:
+            found += 1
+            if found <= 4:
+                ctx.violation("input", {"mode": "parsefuzz", "input": " ".join(c), "observed": o, "expected": bad, "how_to_replay": "echo 'leaves %s' | build/harness/parsefuzz/<bin>" % " ".join(c).encode().hex()})
+    ctx.count("evaluations", len(cases))
+    return found
+
+
 def run(ctx):
     import e_parsegraph
     C.run_extractor(ctx, "parsegraph", e_parsegraph, "ParseGraph.lean")
@@ -158,6 +202,7 @@ def run(ctx):
     ctx.count("evaluations", len(ins))
     ctx.cov["distinct_nontrivial"] = len(nt)
     found += ws_stage(ctx, exe, 40000 if thorough else 4000)
+    found += operand_stage(ctx, exe, 20000 if thorough else 1500)
     ctx.cov["input_sizes"] = {"max": max(len(b) for b in ins), "median": sorted(len(b) for b in ins)[len(ins) // 2]}
     ctx.cov["rule"] = ("%d inputs: repository scripts and AFL corpus, mutations/truncations of them, snippet sequences, escape shapes, nesting to depth %d, bracket soup, raw "
                        "bytes; distinct = distinct byte strings; non-trivial = the parser ran to a verdict (tree or eval_error) under ASan+UBSan" % (len(ins), 100000 if thorough else 2000))
